@@ -458,15 +458,48 @@ func FieldOf(v ssa.Value) (base ssa.Value, field string, ok bool) {
 		if st == nil {
 			return nil, "", false
 		}
-		return x.X, FieldName(st, x.Field), true
+		return promotedBase(x.X), FieldName(st, x.Field), true
 	case *ssa.Field:
 		st, _ := x.X.Type().Underlying().(*types.Struct)
 		if st == nil {
 			return nil, "", false
 		}
-		return x.X, FieldName(st, x.Field), true
+		return promotedBase(x.X), FieldName(st, x.Field), true
 	}
 	return nil, "", false
+}
+
+// promotedBase: a field reached through EMBEDDED struct fields of the module
+// (x.inner.f written x.f) belongs, for the rules, to the outermost struct: the
+// base is the value the embedding chain starts from.
+func promotedBase(b ssa.Value) ssa.Value {
+	for i := 0; i < 4; i++ {
+		switch y := b.(type) {
+		case *ssa.FieldAddr:
+			st := derefStruct(y.X.Type())
+			if st == nil || !st.Field(y.Field).Embedded() || !moduleType(st.Field(y.Field).Type()) {
+				return b
+			}
+			b = y.X
+		case *ssa.Field:
+			st, _ := y.X.Type().Underlying().(*types.Struct)
+			if st == nil || !st.Field(y.Field).Embedded() || !moduleType(st.Field(y.Field).Type()) {
+				return b
+			}
+			b = y.X
+		default:
+			return b
+		}
+	}
+	return b
+}
+
+func moduleType(t types.Type) bool {
+	if p, ok := t.(*types.Pointer); ok {
+		t = p.Elem()
+	}
+	n, ok := t.(*types.Named)
+	return ok && n.Obj().Pkg() != nil && strings.HasPrefix(n.Obj().Pkg().Path(), ModulePath)
 }
 
 // Role aliases. The rules name a few PRIVATE identifiers of the repository
